@@ -114,6 +114,14 @@ def case_from_request(pid, line, r):
                 gen.req(dbg, "o", group, "rminus", 0, Y + X), gen.req(dbg, "o", group, "lminus", 0, Y + X),
                 gen.req(dbg, "o", group, "between", 0, X + Y)]
         return dict(prop=pid, group=group, kind="c04", stage2="c04", reqs=reqs, tags=tags, X=X, Y=Y, t=tt)
+    if pid == "C15" and op.startswith("interp") and len(a) >= 2 * R + 1:
+        A, B, tpar = a[:R], a[R:2 * R], a[2 * R]
+        va = a[2 * R + 1:2 * R + 1 + D] if len(a) >= 2 * R + 1 + 2 * D else [0.0] * D
+        vb = a[2 * R + 1 + D:2 * R + 1 + 2 * D] if len(a) >= 2 * R + 1 + 2 * D else [0.0] * D
+        tins = [tpar] if 0.0 < tpar < 1.0 else []
+        return l2.c15_case_at(pid, group, A, B, va, vb, tins + [0.25, 0.5, r.random()], tags)
+    if pid == "C13" and op == "normalize" and len(a) >= R:
+        return dict(prop=pid, group=group, kind="c13", reqs=[gen.req(True, "o", group, "normalize", 0, a[:R])], plan=[("normalize", None)], tags=tags)
     if pid == "C16" and op.startswith("avg") and len(a) > R:
         pts = [a[1 + i * R:1 + (i + 1) * R] for i in range((len(a) - 1) // R)]      # a[0] is the stopping tolerance
         Z = gen.element(r, group, norm="exact", lin_only=["zero", "unit"])[0]
@@ -226,6 +234,15 @@ def run_property(pid, thorough, seed, res):
         if c:
             cs.append(c)
     viol = l2.run(cs, builds[True])
+    if pid == "C13":
+        # "with NDEBUG nothing is rejected": an NDEBUG request of the construction / setter family that the
+        # implementation answered with invalid_argument while the model accepts IS the failing input
+        for b in l1_bad:
+            tk = b["request"].split()
+            if len(tk) > 4 and tk[0] == "0" and b.get("impl", "").startswith("err invalid_argument") and b.get("model", "").startswith("ok") \
+                    and (tk[3] in ("make", "normalize", "set_quat", "accessors") or tk[3].startswith("ctor_")):
+                viol.append(l2.V("C13", tk[2], tk[3], "ndebug-reject", b["tags"], b["request"],
+                                 "with NDEBUG (assertions off) the data was rejected: " + b["impl"][:40], float("inf"), 0))
     for c in cs:
         res.add_cells([("L2", c["group"], c["kind"], c.get("op", "")) + tuple(x.split("/")[0] for x in c["tags"])])
     if cs:
@@ -314,7 +331,7 @@ def _purity(kind):
             base = []
             for l in lines:
                 t = l.split()
-                if t[3].startswith(("blk_", "self_", "assign_")) or t[2] not in MODELLED:
+                if t[3].startswith(("blk_", "self_", "assign_", "exprt_")) or t[2] not in MODELLED:
                     continue
                 t[4] = str(int(t[4]) & 127)
                 base.append(" ".join(t))
